@@ -105,12 +105,16 @@ def initEnv (ts : List String) : Option DSt :=
     pure { core with val := some { lvs := lvs, boxes := boxes } }
   | _ => initCore ts
 
-/-- an optional last token `dcc=0|1` selects the choose-parent loop (`delayCC_`; absent = 1, the default). -/
+/-- an optional last token `dcc=0|0old|1` selects the choose-parent loop (`delayCC_`; absent = 1, the default). -/
 def init (ts : List String) : Option DSt :=
   match ts.getLast? >>= kv "dcc=" with
   | some "1" => initEnv ts.dropLast
   | some "0" => (initEnv ts.dropLast).map (fun d =>
       let sp := { d.sp with delayCC := false }
+      { d with sp := sp, st := St.init d.obj sp })
+  | some "0old" => (initEnv ts.dropLast).map (fun d =>
+      -- the classic loop as coded before fix e1b5ec649 (trees that do not have it)
+      let sp := { d.sp with delayCC := false, classicOld := true }
       { d with sp := sp, st := St.init d.obj sp })
   | some _ => none
   | none => initEnv ts
